@@ -105,6 +105,13 @@ def run_stog(c):
         for k, kind in enumerate(others[0]):
             mods["B%d" % k] = dict(OTHER[kind])
         mods["M"] = {"area": area, "rectangles": [[X.num(x), X.num(y), X.num(w), X.num(h)] for x, y, w, h in cs]}
+        if c.get("mkind") in ("hard", "fixed") and all(X.inter_area(er[i], er[j]) == 0 for i in range(n) for j in range(i + 1, n)):
+            # the same list as a hard / fixed block (its rectangles may not overlap each other): recognition is about the rectangles,
+            # whatever the kind of the module, in every order
+            mods["M"] = {c["mkind"]: True, "rectangles": mods["M"]["rectangles"]}
+            cls.append("hard-or-fixed-module")
+            if n >= 2:
+                cls.append("hard-or-fixed-module-with-several-rectangles")
         for k, kind in enumerate(others[1]):
             mods["T" if k == 0 else "A%d" % k] = dict(OTHER[kind])
         names = list(mods)
@@ -295,10 +302,12 @@ def stog_s(draw):
     if mode == "netlist":
         kinds = ["soft-rect", "soft-area", "soft-centre", "terminal", "hard"]
         others = [[draw(st.sampled_from(kinds)) for _ in range(draw(_i(0, 2)))], [draw(st.sampled_from(kinds)) for _ in range(draw(_i(0, 2)))]]
-    return dict(unit=unit, rects=[list(r) for r in rects], mode=mode, mut=mut, pre=pre, edit=edit, others=others)
+    return dict(unit=unit, rects=[list(r) for r in rects], mode=mode, mut=mut, pre=pre, edit=edit, others=others,
+                mkind=draw(st.sampled_from(["soft", "soft", "hard", "fixed"])) if mode == "netlist" else None)
 
 
 def subchecks():
     return [Sub("lists", run_stog, strategy=stog_s(), n_quick=40000, n_thorough=1000000, fuzz_thorough=20000,
                 required=("stog", "not-stog", "several-trunks", "mut-gap", "mut-overhang", "mut-overlap", "mut-dup-trunk",
-                          "mut-dup-branch", "mut-extra", "direct", "netlist", "duplicates", "edited-then-recognised-again", "moved-through-the-point-object", "reduced-to-one-rectangle", "module-without-rectangles-listed-before", "far-from-origin"))]
+                          "mut-dup-branch", "mut-extra", "direct", "netlist", "duplicates", "edited-then-recognised-again", "moved-through-the-point-object", "reduced-to-one-rectangle", "module-without-rectangles-listed-before", "far-from-origin",
+                          "hard-or-fixed-module-with-several-rectangles"))]
